@@ -1,5 +1,17 @@
+//! C12 (the transaction state cache `Track` reads back its own writes) and C13 (substate locks
+//! are exclusive for writers). Oracles: an overlay reference model and a reader/writer model.
+mod c12;
+mod c13;
+
 fn main() {
     let args = rv_common::parse_args();
-    eprintln!("no check named {}", args.prop);
-    std::process::exit(2);
+    let code = match args.prop.as_str() {
+        "C12" => c12::run(&args),
+        "C13" => c13::run(&args),
+        other => {
+            eprintln!("rv-track: no check named {other}");
+            2
+        }
+    };
+    std::process::exit(code);
 }
